@@ -83,11 +83,10 @@ def post_to_pda(ref, self, args, kwargs, result, exc):
         return
     res = extract.pda(result)
     L = ref.words(N)
-    # terminal values are converted with str() by to_pda: compare on str(value)
-    Ls = {tuple(str(x) for x in w) for w in L}
-    for w in words({str(t) for t in ref.terminals}):
+    # the automaton reads the terminal VALUES of the grammar (1 is not "1")
+    for w in words(set(ref.terminals)):
         got = res.accepts_empty_stack(w)
-        if got != (tuple(w) in Ls):
+        if got != (tuple(w) in L):
             core.report(PROP, "to_pda", "wrong-accept" if got else "wrong-reject", {"word": list(w)}, tags)
             return
 
